@@ -6,16 +6,19 @@ import (
 	. "github.com/antonmedv/expr/ast"
 )
 
-type inArray struct{}
+type inArray struct {
+	scopes elementScopes
+}
 
-func (*inArray) Enter(*Node) {}
-func (*inArray) Exit(node *Node) {
+func (v *inArray) Enter(node *Node) { v.scopes.enter(*node) }
+func (v *inArray) Exit(node *Node) {
+	v.scopes.exit(*node)
 	switch n := (*node).(type) {
 	case *BinaryNode:
 		if n.Operator == "in" || n.Operator == "not in" {
 			if array, ok := n.Right.(*ArrayNode); ok {
 				if len(array.Nodes) > 0 {
-					if hasDynamicOperand(n.Left) {
+					if hasDynamicOperand(n.Left) || v.scopes.guessed() {
 						// The static type of an expression over interface{} operands
 						// (1 + x, cond ? 1 : x) is only a guess, and a lookup map
 						// needs a key of exactly its key type.
